@@ -277,6 +277,8 @@ func visitInstr(fr *frame, instr ssa.Instruction) continuation {
 			}
 			if len(base) == 1 {
 				fr.env[instr] = &base[0]
+			} else if g.ex.cfg.ConcretizeIndex {
+				fr.env[instr] = &base[int64(g.ex.Concretize(g, it))]
 			} else {
 				fr.env[instr] = symAddr{base: base, idx: it}
 			}
